@@ -670,21 +670,19 @@ def short(path):
 
 def contains(t, pred):
     """does any sub-term satisfy pred?"""
-    if not isinstance(t, tuple):
+    if isinstance(t, frozenset):
+        return any(contains(y, pred) for y in t)
+    if not isinstance(t, tuple) or not t:
         return False
-    if pred(t):
-        return True
-    for x in t[1:]:
-        if isinstance(x, tuple):
-            if x and isinstance(x[0], str) and contains(x, pred):
-                return True
-            for y in x:
-                if isinstance(y, tuple) and contains(y, pred):
-                    return True
-        elif isinstance(x, frozenset):
-            for y in x:
-                if contains(y, pred):
-                    return True
+    if isinstance(t[0], str):
+        if pred(t):
+            return True
+        rest = t[1:]
+    else:
+        rest = t
+    for x in rest:
+        if isinstance(x, (tuple, frozenset)) and contains(x, pred):
+            return True
     return False
 
 
